@@ -611,6 +611,10 @@ def oracle_for_element(case, res, e, x_e, value_e, est_e, fstep_e):
             sw = max(s_of_rho(chat, n, max(rhos[i + W - 1], nat)), m.cn_noise / EPS)
         else:
             sw = max(s_of_rho(chat, n, rhos[i]), s_of_rho(chat, n, rhos[i + W - 1]))
+            # ... and the rounding of the argument itself: fl(x + h) is off by up to eps (|x| + h), which moves f by |f'(x + h)| times
+            # that (no finite-difference code can avoid it; it is what is left at a multiple zero of f, where |f| itself is ~ h^k)
+            sw = max(sw, max(s_of_rho([(k_ + 1) * chat[k_ + 1] * (abs(float(x_e)) + r_) for k_ in range(len(chat) - 1)], n, r_)
+                             for r_ in (rhos[i], rhos[i + W - 1])))
         S = min(S, sw)
         E = min(E, EPS * lam * sw + trunc(rhos[i]))
         E_low = min(E_low, EPS * lam * sw + trunc_low(rhos[i]))
